@@ -285,6 +285,55 @@ Record tx_wf (e : env) (t : etx) : Prop := {
   wf_collector_untouched : untouched (e_collector e) t = true
 }.
 
+(** the ways the message phase can end without an error *)
+Lemma run_msg_cases e b1 t b2 o :
+  run_msg e b1 t = Some (b2, o) ->
+  let S := e_signer e in let F := e_collector e in let U := e_universe e in
+  let p := eff_price (t_fee t) (e_base_fee e) in
+  let v := to_wei (to_native (t_value t)) in
+  let wei0 := fun a => to_wei (bal b1 a) in
+  exists bc,
+    (if refund (t_gas t) (t_gas_used t) p =? 0 then Some bc else send bc F S (refund (t_gas t) (t_gas_used t) p)) = Some b2 /\
+    ((bc = b1 /\ o = VmErr) \/ (bc = b1 /\ o = Stuck) \/
+     (exists script wei1, t_evm t = EvmOk script /\
+        apply_ops U wei0 (OTransfer S (t_to t) v :: script) = Some wei1 /\
+        commit U wei1 b1 = Some bc /\ o = Ok)).
+Proof.
+  unfold run_msg. intro H.
+  destruct (t_gas t <? t_intrinsic t); [discriminate|].
+  destruct ((0 <? t_value t) && (t_value t <? WEI)); [discriminate|].
+  cbv zeta.
+  set (r := refund (t_gas t) (t_gas_used t) (eff_price (t_fee t) (e_base_fee e))) in *.
+  assert (Hgen : forall bc o', match (if r =? 0 then Some (bc, o') else
+                                      match send bc (e_collector e) (e_signer e) r with None => None | Some b2' => Some (b2', o') end)
+                               with Some x => Some x | None => None end = Some (b2, o) ->
+                 (if r =? 0 then Some bc else send bc (e_collector e) (e_signer e) r) = Some b2 /\ o' = o).
+  { intros bc o'. destruct (r =? 0); [intro E; inversion E; auto|].
+    destruct (send bc (e_collector e) (e_signer e) r); [intro E; inversion E; auto|discriminate]. }
+  destruct (t_evm t) as [script|] eqn:Eevm.
+  - destruct (to_wei (bal b1 (e_signer e)) <? to_wei (to_native (t_value t))).
+    + exists b1. destruct (r =? 0); [inversion H; auto|].
+      destruct (send b1 (e_collector e) (e_signer e) r); [inversion H; auto|discriminate].
+    + destruct (apply_ops (e_universe e) (fun a => to_wei (bal b1 a))
+                  (OTransfer (e_signer e) (t_to t) (to_wei (to_native (t_value t))) :: script)) as [wei1|] eqn:Eops.
+      * destruct (commit (e_universe e) wei1 b1) as [bc|] eqn:Ecm.
+        -- exists bc. destruct (r =? 0); [inversion H; subst; split; [reflexivity|]; right; right; eauto 8|].
+           destruct (send bc (e_collector e) (e_signer e) r); [inversion H; subst; split; [reflexivity|]; right; right; eauto 8|discriminate].
+        -- exists b1. destruct (r =? 0); [inversion H; auto|].
+           destruct (send b1 (e_collector e) (e_signer e) r); [inversion H; auto|discriminate].
+      * exists b1. destruct (r =? 0); [inversion H; auto|].
+        destruct (send b1 (e_collector e) (e_signer e) r); [inversion H; auto|discriminate].
+  - exists b1. destruct (r =? 0); [inversion H; auto|].
+    destruct (send b1 (e_collector e) (e_signer e) r); [inversion H; auto|discriminate].
+Qed.
+
+Lemma run_msg_guards e b1 t x : run_msg e b1 t = Some x ->
+  (t_gas t <? t_intrinsic t) = false /\ ((0 <? t_value t) && (t_value t <? WEI)) = false.
+Proof.
+  unfold run_msg. destruct (t_gas t <? t_intrinsic t); [discriminate|].
+  destruct ((0 <? t_value t) && (t_value t <? WEI)); [discriminate|]. auto.
+Qed.
+
 Section Deliver.
   Variable e : env.
   Variable b : bank.
@@ -363,35 +412,18 @@ Section Deliver.
       split; [rewrite sumU_sub; lia|]. split; [lia|].
       split; [lia|]. split; [lia|]. split; [lia|]. split; [|lia].
       intros a _ HaS HaF. rewrite A3 by assumption. lia. }
-    cbn [fst snd]. unfold run_msg in Em. fold S F U L p u in Em.
-    destruct (L <? t_intrinsic t); [discriminate|].
-    destruct ((0 <? t_value t) && (t_value t <? WEI)); [discriminate|].
+    cbn [fst snd].
+    destruct (run_msg_cases _ _ _ _ _ Em) as [bc [Hr Hcases]]. cbv zeta in Hr, Hcases. fold S F U L p u in Hr, Hcases.
     set (v := to_wei (to_native (t_value t))) in *.
     set (wei0 := fun a => to_wei (bal b1 a)) in *.
-    (* the three ways the EVM phase ends without an error *)
-    assert (Hfail : forall b2', (if refund L u p =? 0 then Some b1 else send b1 F S (refund L u p)) = Some b2' ->
-                    P (mk VmErr b2')).
-    { intros b2' Hr. destruct (refund_step _ _ Hr) as [R1 [R2 [R3 [R4 R5]]]].
+    destruct Hcases as [[-> ->]|[[_ ->]|[script [wei1 [Eevm [Eops [Ecm ->]]]]]]].
+    { (* EVM failed: only the fee moved *)
+      intros _. destruct (refund_step _ _ Hr) as [R1 [R2 [R3 [R4 R5]]]].
       unfold P, dsupply, delta. cbn [m_out m_env m_tx m_after m_before mk]. fold S F U L p u.
       unfold net_payment in *. split; [rewrite sumU_sub; lia|]. split; [lia|].
       split; [lia|]. split; [lia|]. split; [lia|]. split; [|lia].
       intros a _ HaS HaF. rewrite R5, A3 by assumption. lia. }
-    destruct (t_evm t) as [script|] eqn:Eevm.
-    2:{ intros _. destruct (refund L u p =? 0) eqn:Er.
-        - inversion Em; subst. apply Hfail. rewrite Er. reflexivity.
-        - destruct (send b1 F S (refund L u p)) as [bx|] eqn:Es; [|discriminate]. inversion Em; subst.
-          apply Hfail. rewrite Er. exact Es. }
-    destruct (wei0 S <? v) eqn:Einsuf.
-    { intros _. destruct (refund L u p =? 0) eqn:Er.
-      - inversion Em; subst. apply Hfail. rewrite Er. reflexivity.
-      - destruct (send b1 F S (refund L u p)) as [bx|] eqn:Es; [|discriminate]. inversion Em; subst.
-        apply Hfail. rewrite Er. exact Es. }
-    destruct (apply_ops U wei0 (OTransfer S (t_to t) v :: script)) as [wei1|] eqn:Eops.
-    2:{ intro Hst. exfalso. apply Hst. destruct (refund L u p =? 0); [inversion Em; reflexivity|].
-        destruct (send b1 F S (refund L u p)); [inversion Em; reflexivity|discriminate]. }
-    destruct (commit U wei1 b1) as [bc|] eqn:Ecm.
-    2:{ intro Hst. exfalso. apply Hst. destruct (refund L u p =? 0); [inversion Em; reflexivity|].
-        destruct (send b1 F S (refund L u p)); [inversion Em; reflexivity|discriminate]. }
+    { intro Hst. exfalso. apply Hst. reflexivity. }
     (* executed and committed *)
     intros _.
     assert (Hw0 : nonneg wei0).
@@ -399,13 +431,9 @@ Section Deliver.
     destruct (apply_ops_spec _ _ _ _ Hnd Eops Hw0) as [Hw1 [Hsumw Hunt]].
     destruct (commit_spec U wei1 b1 Hnd (fun a _ => Hw1 a) (fun a _ => Hb1 a)) as [bc' [Ecm' [C1 [C2 C3]]]].
     rewrite Ecm in Ecm'. inversion Ecm'; subst bc'. clear Ecm'.
-    assert (Hr : (if refund L u p =? 0 then Some bc else send bc F S (refund L u p)) = Some b2 /\ o = Ok).
-    { destruct (refund L u p =? 0); [inversion Em; auto|].
-      destruct (send bc F S (refund L u p)); [inversion Em; auto|discriminate]. }
-    destruct Hr as [Hr ->].
     destruct (refund_step _ _ Hr) as [R1 [R2 [R3 [R4 R5]]]].
     (* the collector is not touched by the EVM *)
-    pose proof (wf_collector_untouched _ _ Ht) as HuF. unfold untouched in HuF. rewrite Eevm in HuF. cbn [script_of] in HuF.
+    pose proof (wf_collector_untouched _ _ Ht) as HuF. unfold untouched, script_of in HuF. rewrite Eevm in HuF.
     fold F in HuF. apply andb_true_iff in HuF as [HuF1 HuF2]. apply negb_true_iff in HuF1. apply negb_true_iff in HuF2.
     assert (HweiF : wei1 F = wei0 F).
     { apply Hunt. cbn [existsb op_touches]. rewrite HuF1, HuF2.
@@ -426,7 +454,7 @@ Section Deliver.
     split; [rewrite sumU_sub; lia|]. split; [lia|].
     split; [lia|]. split; [lia|]. split.
     - (* whole unibi: exact conservation *)
-      intro Hwh. unfold whole_unibi in Hwh. rewrite Eevm in Hwh. cbn [script_of] in Hwh.
+      intro Hwh. unfold whole_unibi, script_of in Hwh. rewrite Eevm in Hwh.
       assert (Hd0 : forall a, (WEI | wei0 a)) by (intro a; unfold wei0, to_wei; exists (bal b1 a); lia).
       assert (Hall : forallb op_whole (OTransfer S (t_to t) v :: script) = true).
       { cbn [forallb op_whole]. rewrite Hwh. unfold v, to_wei. rewrite Z.mod_mul by (pose proof WEI_pos; lia). reflexivity. }
@@ -434,7 +462,7 @@ Section Deliver.
       pose proof (sumU_native_exact wei1 U (fun a _ => D1 a)) as Hex.
       pose proof WEI_pos. nia.
     - (* signer not otherwise involved: pays net + the truncated value *)
-      intro HuS. unfold untouched in HuS. rewrite Eevm in HuS. cbn [script_of] in HuS. fold S in HuS.
+      intro HuS. unfold untouched, script_of in HuS. rewrite Eevm in HuS. fold S in HuS.
       apply andb_true_iff in HuS as [HuS1 HuS2]. apply negb_true_iff in HuS1. apply negb_true_iff in HuS2.
       apply Nat.eqb_neq in HuS2.
       cbn [apply_ops] in Eops. destruct (apply_op U wei0 (OTransfer S (t_to t) v)) as [w1|] eqn:E1; [|discriminate].
@@ -454,6 +482,105 @@ End Deliver.
 
 (* ------------------------------------------------------------------ histories *)
 
-Lemma deliver_nonneg e b t : env_wf e -> nonneg (bal b) -> snd (deliver e b t) <> Stuck ->
-  tx_wf e t -> nonneg (bal (fst (deliver e b t))) -> True.
-Proof. auto. Qed.
+Lemma deliver_nonneg e b t : env_wf e -> nonneg (bal b) -> nonneg (bal (fst (deliver e b t))).
+Proof.
+  intros He Hb. unfold deliver. destruct (ante e b t) as [b1|] eqn:Ea; [|exact Hb].
+  assert (Hb1 : nonneg (bal b1)).
+  { unfold ante in Ea. destruct (_ && _) in Ea; [|discriminate]. eapply send_nonneg; eauto. }
+  destruct (run_msg e b1 t) as [[b2 o]|] eqn:Em; [|exact Hb1]. cbn [fst].
+  destruct (run_msg_cases _ _ _ _ _ Em) as [bc [Hr Hc]]. cbv zeta in Hr, Hc.
+  assert (Hbc : nonneg (bal bc)).
+  { destruct Hc as [[-> _]|[[-> _]|[script [wei1 [_ [Eops [Ecm _]]]]]]]; [exact Hb1|exact Hb1|].
+    assert (Hw0 : nonneg (fun a => to_wei (bal b1 a))).
+    { intro a. unfold to_wei. pose proof (Hb1 a). pose proof WEI_pos. nia. }
+    destruct (apply_ops_spec _ _ _ _ (wf_nodup _ He) Eops Hw0) as [Hw1 _].
+    destruct (commit_spec (e_universe e) wei1 b1 (wf_nodup _ He) (fun a _ => Hw1 a) (fun a _ => Hb1 a)) as [bc' [E' [C1 [C2 _]]]].
+    rewrite Ecm in E'. inversion E'; subst bc'. intro a.
+    destruct (in_dec Nat.eq_dec a (e_universe e)) as [Hin|Hnin].
+    - rewrite C1 by assumption. apply to_native_nonneg. apply Hw1.
+    - rewrite C2 by assumption. apply Hb1. }
+  destruct (refund (t_gas t) (t_gas_used t) (eff_price (t_fee t) (e_base_fee e)) =? 0).
+  - inversion Hr; subst. exact Hbc.
+  - eapply send_nonneg; eauto.
+Qed.
+
+Section Exported.
+  Variable e : env.
+  Hypothesis He : env_wf e.
+
+  Lemma deliver_supply_le b t : nonneg (bal b) -> tx_wf e t -> snd (deliver e b t) <> Stuck ->
+    supply (fst (deliver e b t)) <= supply b.
+  Proof.
+    intros Hb Ht Hs. destruct (deliver_satisfies_P e b t He Hb Ht Hs) as [_ [H _]].
+    unfold dsupply in H. cbn in H. lia.
+  Qed.
+
+  (** no history of EVM txs increases the supply *)
+  Lemma run_supply_le ts : forall b, nonneg (bal b) -> Forall (tx_wf e) ts -> ~ In Stuck (snd (run e b ts)) ->
+    supply (fst (run e b ts)) <= supply b.
+  Proof.
+    induction ts as [|t r IH]; intros b Hb Hts Hs; [simpl; lia|].
+    inversion Hts; subst. cbn [run] in *.
+    destruct (deliver e b t) as [b1 o] eqn:Ed. destruct (run e b1 r) as [b2 os] eqn:Er. cbn [fst snd] in *.
+    assert (Ho : o <> Stuck) by (intro; subst; apply Hs; left; reflexivity).
+    pose proof (deliver_supply_le b t Hb H1) as H5. rewrite Ed in H5. cbn [fst snd] in H5. specialize (H5 Ho).
+    pose proof (deliver_nonneg e b t He Hb) as Hb1. rewrite Ed in Hb1. cbn [fst] in Hb1.
+    specialize (IH b1 Hb1 H2). rewrite Er in IH. cbn [fst snd] in IH.
+    assert (~ In Stuck os) by (intro; apply Hs; right; assumption). specialize (IH H). lia.
+  Qed.
+
+  (** what leaves one account arrives at another *)
+  Lemma closed_system b t : nonneg (bal b) -> tx_wf e t -> snd (deliver e b t) <> Stuck ->
+    supply (fst (deliver e b t)) - supply b =
+    sumU (bal (fst (deliver e b t))) (e_universe e) - sumU (bal b) (e_universe e).
+  Proof.
+    intros Hb Ht Hs. destruct (deliver_satisfies_P e b t He Hb Ht Hs) as [H _].
+    unfold dsupply, delta in H. cbn in H. rewrite sumU_sub in H. exact H.
+  Qed.
+
+  Lemma exact_when_whole b t : nonneg (bal b) -> tx_wf e t -> snd (deliver e b t) = Ok ->
+    whole_unibi t = true -> supply (fst (deliver e b t)) = supply b.
+  Proof.
+    intros Hb Ht Ho Hw. assert (Hs : snd (deliver e b t) <> Stuck) by (rewrite Ho; discriminate).
+    destruct (deliver_satisfies_P e b t He Hb Ht Hs) as [_ [_ H]]. cbn [m_out mk] in H. rewrite Ho in H.
+    destruct H as [_ [_ [H _]]]. specialize (H Hw). unfold dsupply in H. cbn in H. lia.
+  Qed.
+
+  (** a tx that fails after the ante handler changes nothing but the signer's payment (and nonce, C07):
+      the payment goes to the fee collector, is at most the prepayment, and the supply is unchanged *)
+  Lemma failed_tx_changes_only_fee b t : nonneg (bal b) -> tx_wf e t ->
+    snd (deliver e b t) = VmErr \/ snd (deliver e b t) = MsgErr ->
+    let b' := fst (deliver e b t) in
+    let net := bal b' (e_collector e) - bal b (e_collector e) in
+    bal b' (e_signer e) - bal b (e_signer e) = - net /\
+    0 <= net <= prepay (t_gas t) (eff_price (t_fee t) (e_base_fee e)) /\
+    (forall a, In a (e_universe e) -> a <> e_signer e -> a <> e_collector e -> bal b' a = bal b a) /\
+    supply b' = supply b.
+  Proof.
+    intros Hb Ht Ho. assert (Hs : snd (deliver e b t) <> Stuck) by (destruct Ho as [-> | ->]; discriminate).
+    destruct (deliver_satisfies_P e b t He Hb Ht Hs) as [_ [_ H]]. cbn [m_out mk] in H. cbv zeta.
+    unfold dsupply, delta in H. cbn [m_env m_tx m_after m_before mk] in H.
+    destruct Ho as [Ho|Ho]; rewrite Ho in H.
+    - destruct H as [H1 [_ [H3 [H4 H5]]]]. repeat split; try lia. intros a Ha HS HF. specialize (H4 a Ha HS HF). lia.
+    - destruct H as [H1 [H2 [H3 [H4 H5]]]]. repeat split; try lia. intros a Ha HS HF. specialize (H4 a Ha HS HF). lia.
+  Qed.
+
+  (** gas accounting of a tx that produced a response: the collector's gain is the net payment,
+      within one unibi of gasUsed x effective price, and it is what the signer paid beyond the value *)
+  Lemma payment_bounds b t : nonneg (bal b) -> tx_wf e t ->
+    snd (deliver e b t) = Ok \/ snd (deliver e b t) = VmErr ->
+    let b' := fst (deliver e b t) in
+    let net := bal b' (e_collector e) - bal b (e_collector e) in
+    let p := eff_price (t_fee t) (e_base_fee e) in
+    0 <= net <= prepay (t_gas t) p /\ WEI * net - WEI < t_gas_used t * p < WEI * net + WEI /\
+    (snd (deliver e b t) = Ok -> untouched (e_signer e) t = true ->
+     bal b (e_signer e) - bal b' (e_signer e) - to_native (t_value t) = net).
+  Proof.
+    intros Hb Ht Ho. assert (Hs : snd (deliver e b t) <> Stuck) by (destruct Ho as [-> | ->]; discriminate).
+    destruct (deliver_satisfies_P e b t He Hb Ht Hs) as [_ [_ H]]. cbn [m_out mk] in H. cbv zeta.
+    unfold dsupply, delta in H. cbn [m_env m_tx m_after m_before mk] in H.
+    destruct Ho as [Ho|Ho]; rewrite Ho in H.
+    - destruct H as [H1 [H2 [_ H4]]]. split; [lia|]. split; [lia|]. intros _ Hu. specialize (H4 Hu). lia.
+    - destruct H as [H1 [H2 _]]. split; [lia|]. split; [lia|]. intro Hx. rewrite Ho in Hx. discriminate.
+  Qed.
+End Exported.
